@@ -37,7 +37,7 @@ use warp_core::materialization::{
 };
 use warp_core::{
     compute_emissions_digest, compute_tick_commit_hash_v2, CursorId, CursorReceipt, CursorRole, Engine, EngineBuilder,
-    GlobalTick, HashTriplet, PlaybackCursor, PlaybackMode, ProvenanceEntry, ProvenanceService, ProvenanceStore,
+    ConflictPolicy, Footprint, GlobalTick, GraphView, HashTriplet, NodeId, PatternGraph, PlaybackCursor, RewriteRule, TickDelta, PlaybackMode, ProvenanceEntry, ProvenanceService, ProvenanceStore,
     SchedulerKind, SessionId, StepResult, TruthFrame, TruthSink, TxId, ViewSession, WorldlineId, WorldlineState,
     WorldlineTickHeaderV1, WorldlineTickPatchV1,
 };
@@ -922,7 +922,7 @@ fn probe(t: &Tables) -> Vec<Value> {
         world.engine.commit_with_receipt(tx).map_err(|e| format!("commit: {e:?}"))?;
         let own_before = lm_pairs(world.engine.last_materialization());
         // host emission, then a runtime tick with a real graph effect
-        world.engine.materialization_bus().emit(t.chans[1], key, vec![9]).map_err(|e| format!("emit: {e:?}"))?;
+        world.engine.materialization_bus().emit(t.chans[1], EmitKey::with_subkey([0u8; 32], 2, 0), vec![9]).map_err(|e| format!("emit: {e:?}"))?;
         let mut ops = BTreeMap::new();
         ops.insert("n1".to_string(), "p1".to_string());
         world.ingest(wl(), 0, &c07::micro_ops(&ops))?;
@@ -938,7 +938,8 @@ fn probe(t: &Tables) -> Vec<Value> {
             "worldline_last_materialization": live_lm.len(),
             "recorded_equals_live": recorded == live_lm,
             "bus_empty_after_runtime_commit": world.engine.materialization_bus().is_empty(),
-            "engine_own_last_materialization_preserved": lm_pairs(world.engine.last_materialization()) == own_before && !own_before.is_empty(),
+            "engine_own_outputs_before": own_before.len(),
+            "engine_own_last_materialization_preserved": lm_pairs(world.engine.last_materialization()) == own_before,
         }))
     });
     out.push(match r {
@@ -955,7 +956,7 @@ fn probe(t: &Tables) -> Vec<Value> {
         e.commit_with_receipt(tx).map_err(|e| format!("commit: {e:?}"))?;
         let in_tick = e.last_materialization().len();
         let tx2 = e.begin();
-        e.materialization_bus().emit(t.chans[1], key, vec![6]).map_err(|e| format!("emit: {e:?}"))?;
+        e.materialization_bus().emit(t.chans[1], EmitKey::with_subkey([0u8; 32], 3, 0), vec![6]).map_err(|e| format!("emit: {e:?}"))?;
         e.abort(TxId::from_raw(4242)); // not the live transaction
         let wiped = e.materialization_bus().is_empty();
         let still_live = e.commit_with_receipt(tx2).is_ok();
@@ -968,7 +969,86 @@ fn probe(t: &Tables) -> Vec<Value> {
         Ok(Err(e)) => json!({"probe": "outside_tx", "error": e}),
         Err(p) => json!({"probe": "outside_tx", "error": format!("panic: {p}")}),
     });
+    out.push(match util::catch(|| probe_failed_commit(t, &pol)) {
+        Ok(Ok(v)) => v,
+        Ok(Err(e)) => json!({"probe": "failed_commit", "error": e}),
+        Err(p) => json!({"probe": "failed_commit", "error": format!("panic: {p}")}),
+    });
     out
+}
+
+// a rule whose executor panics: the public way to make commit_with_receipt fail AFTER the transaction emitted
+fn boom_match(_: GraphView<'_>, _: &NodeId) -> bool {
+    true
+}
+fn boom_exec(_: GraphView<'_>, _: &NodeId, _: &mut TickDelta) {
+    panic!("truth/boom executor");
+}
+fn boom_fp(_: GraphView<'_>, _: &NodeId) -> Footprint {
+    Footprint::default()
+}
+fn boom_rule() -> RewriteRule {
+    RewriteRule {
+        id: *blake3::hash(b"rule:truth/boom").as_bytes(),
+        name: "truth/boom",
+        left: PatternGraph { nodes: vec![] },
+        matcher: boom_match,
+        executor: boom_exec,
+        compute_footprint: boom_fp,
+        factor_mask: 1,
+        conflict_policy: ConflictPolicy::Abort,
+        join_fn: None,
+    }
+}
+
+/// (3) a commit that fails after the transaction emitted (a rule executor panics), then the host's possible reactions
+fn probe_failed_commit(t: &Tables, pol: &[Option<ChannelPolicy>]) -> Result<Value, String> {
+    let key = |r: u32| EmitKey::with_subkey([0u8; 32], r, 0);
+    let start = || -> Result<(Engine, TxId, String), String> {
+        let mut e = build_engine(t, pol, SchedulerKind::Radix, 1)?;
+        e.register_rule(boom_rule()).map_err(|e| format!("register: {e:?}"))?;
+        let tx = e.begin();
+        e.materialization_bus().emit(t.chans[1], key(1), vec![0xA1]).map_err(|e| format!("emit: {e:?}"))?;
+        let root = t.u0.root().local_id;
+        let applied = e.apply(tx, "truth/boom", &root).map_err(|e| format!("apply: {e:?}"))?;
+        let how = match util::catch(|| e.commit_with_receipt(tx)) {
+            Err(p) => format!("panic: {p}"),
+            Ok(Err(err)) => format!("error: {err:?}"),
+            Ok(Ok(_)) => format!("committed (apply = {applied:?})"),
+        };
+        Ok((e, tx, how))
+    };
+    // (a) what the failed commit leaves behind
+    let (e, _, how) = start()?;
+    let bus_keeps = !e.materialization_bus().is_empty();
+    // (b) the host begins the next transaction without aborting the failed one
+    let (mut e, _, _) = start()?;
+    let tx2 = e.begin();
+    e.materialization_bus().emit(t.chans[1], key(2), vec![0xB2]).map_err(|e| format!("emit: {e:?}"))?;
+    let next = match util::catch(|| e.commit_with_receipt(tx2)) {
+        Ok(Ok(_)) => e.last_materialization().iter().map(|c| c.data.clone()).collect::<Vec<_>>(),
+        other => return Ok(json!({"probe": "failed_commit", "failed_commit": how, "next_commit": format!("{:?}", other.map(|r| r.map(|_| ())))})),
+    };
+    // (c) the host aborts the failed transaction first
+    let (mut e, tx, _) = start()?;
+    e.abort(tx);
+    let clean_after_abort = e.materialization_bus().is_empty();
+    let tx3 = e.begin();
+    e.materialization_bus().emit(t.chans[1], key(2), vec![0xB2]).map_err(|e| format!("emit: {e:?}"))?;
+    let after_abort = match util::catch(|| e.commit_with_receipt(tx3)) {
+        Ok(Ok(_)) => e.last_materialization().iter().map(|c| c.data.clone()).collect::<Vec<_>>(),
+        _ => vec![vec![0xEE]],
+    };
+    // (d) the host retries the commit of the failed transaction
+    let (mut e, tx, _) = start()?;
+    let retry = match util::catch(|| e.commit_with_receipt(tx)) {
+        Ok(Ok(_)) => format!("committed with outputs {:?}", e.last_materialization().iter().map(|c| c.data.clone()).collect::<Vec<_>>()),
+        Ok(Err(err)) => format!("error: {err:?}"),
+        Err(p) => format!("panic: {p}"),
+    };
+    Ok(json!({"probe": "failed_commit", "failed_commit": how, "bus_keeps_emissions_of_failed_commit": bus_keeps,
+              "next_tx_tick_outputs": next, "failed_tx_emission_leaks_into_next_tick": next.iter().any(|d| d.contains(&0xA1)),
+              "clean_after_abort": clean_after_abort, "tick_after_abort_outputs": after_abort, "retry_of_failed_commit": retry}))
 }
 
 pub fn run(args: &[String]) -> i32 {
